@@ -331,3 +331,67 @@ def feasible_path_exc(cfg: CFG, src: CFGNode, avoid: Set[CFGNode]) -> Optional[L
     from .dataflow import feasible_path
 
     return feasible_path(cfg, src, cfg.raise_exit, avoid=avoid, correlated=False)
+
+
+# ----------------------------------------------------------------------------- T10 exact arithmetic
+def _is_fraction_ctor(e: ast.AST) -> bool:
+    return isinstance(e, ast.Call) and norm(e.func).split(".")[-1] == "Fraction"
+
+
+def _provably_fraction(e: ast.AST, cfg: CFG, node: CFGNode, rd, depth: int = 4) -> bool:
+    if _is_fraction_ctor(e):
+        return True
+    if isinstance(e, ast.BinOp) and isinstance(e.op, (ast.Add, ast.Sub, ast.Mult, ast.Div)):
+        return _provably_fraction(e.left, cfg, node, rd, depth) or _provably_fraction(e.right, cfg, node, rd, depth)
+    if isinstance(e, ast.UnaryOp):
+        return _provably_fraction(e.operand, cfg, node, rd, depth)
+    if isinstance(e, ast.Name) and depth > 0:
+        from .dataflow import def_value
+
+        defs = rd.get(node, {}).get(e.id, set())
+        if not defs:
+            return False
+        if cfg.entry in defs:
+            # a parameter: annotated Fraction?
+            for a in cfg.fn.args.args + cfg.fn.args.kwonlyargs:
+                if a.arg == e.id and a.annotation is not None and "Fraction" in norm(a.annotation) and "int" not in norm(a.annotation) and "Union" not in norm(a.annotation):
+                    return len(defs) == 1
+            return False
+        for d in defs:
+            v = def_value(d, e.id)
+            if v is None or isinstance(v, ast.AugAssign) or not _provably_fraction(v, cfg, d, rd, depth - 1):
+                return False
+        return True
+    return False
+
+
+def exact_arithmetic(rep: Report, rule: str, funcs: Iterable[FuncInfo]) -> int:
+    """T10: no true division unless an operand is provably a Fraction; no float() except the inf sentinels;
+    no int(a / b). One obligation per arithmetic site."""
+    from .dataflow import reaching_defs
+
+    n = 0
+    for f in funcs:
+        sites = [x for x in walk_no_nested(f.node) if (isinstance(x, ast.BinOp) and isinstance(x.op, ast.Div)) or (isinstance(x, ast.AugAssign) and isinstance(x.op, ast.Div)) or (isinstance(x, ast.Call) and isinstance(x.func, ast.Name) and x.func.id == "float")]
+        if not sites:
+            continue
+        rep.note_function(f.qualname)
+        cfg = cfg_of(f)
+        rd = reaching_defs(cfg)
+        ordinal: Dict[str, int] = {}
+        for x in sites:
+            n += 1
+            txt = norm(x)
+            ordinal[txt] = ordinal.get(txt, 0) + 1
+            tag = f" #{ordinal[txt]}" if ordinal[txt] > 1 else ""
+            if isinstance(x, ast.Call):
+                ok = len(x.args) == 1 and isinstance(x.args[0], ast.Constant) and isinstance(x.args[0].value, str) and x.args[0].value.strip().lstrip("+-").lower() in ("inf", "infinity")
+                in_str = f.name in ("__str__", "__repr__")
+                rep.check(ok or in_str, rule, f"{f.short}: float(){tag} only as an infinity sentinel", f.loc(x), construct=txt + tag, detail="" if (ok or in_str) else "a value is converted to a binary float: rationals / large integers lose precision", function=f.qualname)
+                continue
+            nodes = cfg.node_containing(x)
+            node = nodes[0] if nodes else cfg.entry
+            l, r = (x.left, x.right) if isinstance(x, ast.BinOp) else (x.target, x.value)
+            ok = _provably_fraction(l, cfg, node, rd) or _provably_fraction(r, cfg, node, rd)
+            rep.check(ok, rule, f"{f.short}: division{tag} is exact (an operand is provably a Fraction)", f.loc(x), construct=txt + tag, detail="" if ok else "true division of values that can both be ints yields a binary float: results are wrong above 2**53 and rationals such as 1/3 are rounded", function=f.qualname)
+    return n
